@@ -78,12 +78,20 @@ async fn decisions(nexus: &CognitiveNexus, principals: &[String]) -> BTreeMap<St
     }
     let mut out = BTreeMap::new();
     for p in principals {
-        let auth = AuthContext::principal(p);
-        let session = nexus.session(auth.clone());
-        let Ok(authority) = session.effective_authority(DEFAULT_SPACE).await else { continue };
-        for perm in Permission::ALL {
-            for (label, res) in &resources {
-                out.insert(format!("{p}|{}|{label}", perm.as_str()), authority.authorize(*perm, res, &auth).is_permitted());
+        // both entry points: the session that names no Delegation chain, and one
+        // per Delegation conferred on the Principal that names that Delegation
+        let mut sessions = vec![(p.clone(), AuthContext::principal(p))];
+        for d in nexus.governance().delegations_to(DEFAULT_SPACE, p).await.expect("machinery: delegations_to") {
+            let id = gstore::delegation_id(d._id);
+            sessions.push((format!("{p} naming {id}"), AuthContext::principal(p).with_delegation_chain(vec![id])));
+        }
+        for (who, auth) in sessions {
+            let session = nexus.session(auth.clone());
+            let Ok(authority) = session.effective_authority(DEFAULT_SPACE).await else { continue };
+            for perm in Permission::ALL {
+                for (label, res) in &resources {
+                    out.insert(format!("{who}|{}|{label}", perm.as_str()), authority.authorize(*perm, res, &auth).is_permitted());
+                }
             }
         }
     }
